@@ -212,6 +212,14 @@ func editsTerm(es []bcl.FmtDiff) string {
 	return listTerm(items)
 }
 
+func lspTerm(es []bcl.LspEdit) string {
+	items := make([]string, len(es))
+	for i, e := range es {
+		items[i] = fmt.Sprintf("(%s,%s,%s,%s,%s)", zlit(int(e.StartLine)), zlit(int(e.StartChar)), zlit(int(e.EndLine)), zlit(int(e.EndChar)), vh.BytesTerm(e.NewText))
+	}
+	return listTerm(items)
+}
+
 func linesTerm(ls []string) string {
 	items := make([]string, len(ls))
 	for i, l := range ls {
